@@ -21,7 +21,7 @@ T2 = ["stop", "setpos", "getshutter", "getbreeze", "ctlbreeze"]
 KINDS15 = T1 + ["stop", "setpos", "getshutter", "getbreeze", "ctlbreeze:cmd", "ctlbreeze:swing", "ctlbreeze:status"]
 
 
-def gen_op(rng, kind, now, allow_create=True):
+def gen_op(rng, kind, now, allow_create=True, faults=False):
     op = kind.split(":")[0]
     if op == "createsched" and not allow_create:
         op = "control"
@@ -40,17 +40,21 @@ def gen_op(rng, kind, now, allow_create=True):
     if op in ("getState", "getshutter", "getbreeze", "ctlbreeze"):
         replies.append(G.gen_state_reply(rng, op))
     replies += ["%02x" % rng.randrange(1, 256) * rng.randrange(1, 12) for _ in range(3)]
+    if faults and rng.random() < 0.2:
+        # the device does not answer this login (it closed its sending side), or answers with less than a session id: whatever the
+        # client then writes must come from THIS exchange, not from an earlier one on the connection
+        replies[0] = rng.choice(["-", "-", replies[0][:2 * rng.randrange(1, 12)]])
     return {"now": now, "req": req, "replies": replies}
 
 
-def gen_instance(rng, api, kinds, t0, allow_create=True, burst=False):
+def gen_instance(rng, api, kinds, t0, allow_create=True, burst=False, faults=False):
     did, key = G.gen_ids(rng)
     ops, now = [], t0
     for k in kinds:
         # burst: the operations follow each other within the same clock second (a caller that does not wait)
         now += rng.choice([0, 0, 0.125, 0.25]) if burst else rng.choice([1, 2, 5, 60, 3600]) + rng.choice([0.0, 0.25, 0.5])
         # create_schedule reads the clock twice (rounded and truncated): at whole seconds the two agree on the date
-        ops.append(gen_op(rng, k, float(int(now)) if k == "createsched" else now, allow_create))
+        ops.append(gen_op(rng, k, float(int(now)) if k == "createsched" else now, allow_create, faults and len(ops) > 0))
     return {"did": did, "key": key, "api": api, "ops": ops}
 
 
@@ -115,13 +119,13 @@ def _pairs(rng):
     return out
 
 
-def _sequences(rng, n, burst=False):
+def _sequences(rng, n, burst=False, faults=False):
     out = []
     for _ in range(n):
         api = rng.choice(["type1", "type2"])
         pool = [k for k in KINDS15 if api_of(k) == api and not (burst and k == "createsched")]
         kinds = [rng.choice(pool) for _ in range(rng.randrange(3, 21))]
-        out.append({"tz": rng.choice(list(H.FIXED_ZONES)), "instances": [gen_instance(rng, api, kinds, rng.randrange(1_600_000_000, 1_900_000_000), burst=burst)], "schedule": []})
+        out.append({"tz": rng.choice(list(H.FIXED_ZONES)), "instances": [gen_instance(rng, api, kinds, rng.randrange(1_600_000_000, 1_900_000_000), burst=burst, faults=faults)], "schedule": []})
     return out
 
 
@@ -150,6 +154,7 @@ def streams(ctx):
     ctx.run_cases(HIST, "sequences-up-to-20-on-one-connection", _sequences(rng, ctx.n(120, 3000)), exhaustive=False, sample_every=60)
     ctx.run_cases(HIST, "same-class-pairs-within-one-clock-second", _pairs_in_one_second(rng), exhaustive=True, sample_every=41)
     ctx.run_cases(HIST, "sequences-within-one-clock-second", _sequences(rng, ctx.n(40, 1000), burst=True), exhaustive=False, sample_every=20)
+    ctx.run_cases(HIST, "sequences-in-which-some-logins-are-not-answered", _sequences(rng, ctx.n(100, 2000), faults=True), exhaustive=False, sample_every=50)
     ctx.run_cases(HIST, "two-instances-interleaved", _interleaved(rng, ctx.n(250, 7000)), exhaustive=False, sample_every=120)
     # two clients of ONE device (same address, same API class), connected at the same time
     same = [dict(h, same_ip=True) for h in _interleaved(rng, ctx.n(120, 3000)) if h["instances"][0]["api"] == h["instances"][1]["api"]]
